@@ -137,6 +137,25 @@ func c15workList() []c15work {
 			out = append(out, c15work{"corpus:" + it.Rel, doc})
 		}
 	}
+	// the example inputs as shipped (before calculation filled anything in) …
+	for _, src := range corpus.Sources() {
+		out = append(out, c15work{"source:" + src.Rel, src.JSON})
+	}
+	// … and the calculated examples with everything calculation adds at the
+	// top level removed again (tax extensions, totals), so that it is added anew
+	for _, it := range corpus.Golden() {
+		doc, err := gx.DocJSON(it.Data)
+		if err != nil {
+			continue
+		}
+		n, err := jmut.Parse(doc)
+		if err != nil || n.Get("tax") == nil || n.Get("tax").Get("ext") == nil {
+			continue
+		}
+		n.Get("tax").Del("ext")
+		n.Del("totals")
+		out = append(out, c15work{"stripped:" + it.Rel, n.Bytes()})
+	}
 	b, err := os.ReadFile(filepath.Join(ev.Repo(), "examples/es/out/invoice-es-es.json"))
 	if err != nil {
 		return out
@@ -276,6 +295,8 @@ type c15childResult struct {
 	Goroutines  int              `json:"goroutines"`
 	Procs       int              `json:"gomaxprocs"`
 	WorkItems   int              `json:"work_items"`
+	Aliases     []map[string]any `json:"aliases"`
+	AliasChecks int64            `json:"alias_checks"`
 	UUIDsSeen   int              `json:"uuids_seen"`
 	UUIDsDup    int              `json:"uuids_duplicated"`
 }
@@ -300,6 +321,45 @@ func childC15(args []string) int {
 		expected[i] = c15pipeline(w.Doc, func() {})
 	}
 	res.FPSeq = fingerprintRegistries()
+	// no result may share a mutable node (map, slice array, struct behind a
+	// pointer) with the registries: a later write to the document would then
+	// land in the shared definitions
+	roots := registryRoots()
+	defer runtime.KeepAlive(roots) // containers built for the roots must not be freed and their addresses reused
+	regAddrs := walk.Addresses(roots)
+	seenAlias := map[string]bool{}
+	aliasOf := func(item, what string, v any) {
+		res.AliasChecks++
+		for a, where := range walk.Addresses(v) {
+			if rw, ok := regAddrs[a]; ok {
+				k := what + "|" + pathClass(where) + "|" + pathClass(rw)
+				if !seenAlias[k] && len(res.Aliases) < 20 {
+					seenAlias[k] = true
+					res.Aliases = append(res.Aliases, map[string]any{"item": item, "result": what, "document_path": where, "registry_path": rw})
+				}
+			}
+		}
+	}
+	for _, w := range work {
+		func() {
+			defer func() { _ = recover() }()
+			env, err := gx.EnvelopDoc(w.Doc)
+			if err != nil {
+				return
+			}
+			aliasOf(w.Name, "calculated", env)
+			_ = env.Validate()
+			aliasOf(w.Name, "validated", env)
+			if _, ok := env.Extract().(*bill.Invoice); ok {
+				if ce, cerr := env.Correct(bill.WithData(json.RawMessage(`{"type":"credit-note","reason":"r"}`))); cerr == nil {
+					aliasOf(w.Name, "corrected", ce)
+				}
+			}
+			if re, rerr := env.Replicate(); rerr == nil {
+				aliasOf(w.Name, "replica", re)
+			}
+		}()
+	}
 	// concurrent pass
 	var mu sync.Mutex
 	var wg sync.WaitGroup
@@ -529,6 +589,10 @@ func runC15(c *Ctx) {
 		}
 		for _, k := range res.ChangedConc {
 			c.R.Fail("registry-write:"+k+":concurrent", "shared definitions under "+k+" changed during concurrent use", map[string]any{"root": k})
+		}
+		c.R.Count("registry_alias_checks", res.AliasChecks)
+		for _, a := range res.Aliases {
+			c.R.Fail(fmt.Sprintf("registry-alias:%v:%s", a["result"], pathClass(fmt.Sprint(a["registry_path"]))), fmt.Sprintf("%v: the %v document shares the mutable node %v with the shared definitions at %v", a["item"], a["result"], a["document_path"], a["registry_path"]), a)
 		}
 		if res.UUIDsDup > 0 {
 			c.R.Fail("diverges:uuid-duplicate", fmt.Sprintf("%d envelope identifiers were handed out twice", res.UUIDsDup), nil)
